@@ -5,6 +5,7 @@ Decided: agreement of the writer's and the reader's tables for every schema clas
 """
 import ast
 
+from ..match import facts, Q
 from ..srcmodel import attr_chain, call_name, unparse, norm_text, walk_no_nested
 from ..cfg import cfg_of
 from ..tables import reflect
@@ -212,7 +213,7 @@ def engine_channels(run):
               if attr_chain(c.func) == "ExtensionContainer." + meth]
         ok = len(fb) == 1
         if ok:
-            gs = {(unparse(e), p) for e, p, _ in cfg.guards(fb[0].id)}
+            gs = facts(cfg, fb[0].id)
             ok = any(("self.__class__.%s" % table) in g and " in " in g and
                      p is False for g, p in gs)
         run.check(ok, "E1", fi.qual + "::unknown=>extension",
@@ -222,7 +223,7 @@ def engine_channels(run):
         sets = cfg.call_nodes("setattr")
         ok = bool(sets)
         for nd, c in sets:
-            gs = {(unparse(e), p) for e, p, _ in cfg.guards(nd.id)}
+            gs = facts(cfg, nd.id)
             ok = ok and any(("self.__class__.%s" % table) in g and p
                             for g, p in gs)
         run.check(ok, "E1", fi.qual + "::known=>member",
